@@ -132,6 +132,10 @@ pub struct Known {
 }
 
 impl Known {
+    pub fn load_cached() -> &'static Known {
+        static K: std::sync::OnceLock<Known> = std::sync::OnceLock::new();
+        K.get_or_init(Known::load)
+    }
     pub fn load() -> Known {
         let mut k = Known::default();
         let path = verif_dir().join("KNOWN_FINDINGS.txt");
@@ -445,6 +449,11 @@ pub trait DynProp: Sync {
     fn dproperty(&self) -> &'static str;
     fn ddrive(&self, cases: usize, lanes: usize, seed: u64, known: &Known) -> SubResult;
     fn dreplay(&self, v: &Value) -> Result<Result<(), Fail>, String>;
+    /// one case decoded from a choice stream (fuzz targets); Some(message) on a violation that is
+    /// not a known finding; a harness error is reported the same way (the fuzzer must stop)
+    fn dfuzz_one(&self, stream: &[u16], known: &Known) -> Option<String>;
+    /// the JSON of the case a stream decodes to (for turning a fuzz artifact into a replay file)
+    fn dcase_json(&self, stream: &[u16]) -> Value;
 }
 
 impl<P: Prop> DynProp for P {
@@ -459,6 +468,27 @@ impl<P: Prop> DynProp for P {
     }
     fn dreplay(&self, v: &Value) -> Result<Result<(), Fail>, String> {
         replay_case(self, v)
+    }
+    fn dfuzz_one(&self, stream: &[u16], known: &Known) -> Option<String> {
+        let mut src = Src::new(stream);
+        let case = self.gen(&mut src);
+        let mut st = Stats::default();
+        match guarded_check(self, &case, 0, &mut st) {
+            Err(e) => Some(format!("harness error: {}", e)),
+            Ok(Ok(())) => None,
+            Ok(Err(f)) => {
+                if known.matches(self.property(), &f).is_some() {
+                    None
+                } else {
+                    Some(f.msg)
+                }
+            }
+        }
+    }
+    fn dcase_json(&self, stream: &[u16]) -> Value {
+        let mut src = Src::new(stream);
+        let case = self.gen(&mut src);
+        json!({"property": self.property(), "check": self.name(), "message": "found by the coverage-guided fuzzer", "case": case})
     }
 }
 
